@@ -86,6 +86,11 @@ CHECKS = {
          "Configurations: every L in 0..64 (each selects its own grid). Inputs: for L <= 16 (thorough 32) every unit vector e_(l,m) and i*e_(l,m) of the complex and real layouts through analysis and synthesis, completion and complex-vs-real agreement; above that the channels l in {0,1,L/2,L-1,L} x m in {-l,-1,0,1,l} and two dense vectors; pure-Python paths and point-wise evaluation on every basis vector for L <= 8 (12); linearity, Parseval by an independent quadrature, power spectrum; grid-size facts.",
          "Tolerance 1e-10*(L+1); scipy.special.sph_harm_y is the trusted definition of the orthonormal Condon-Shortley harmonics; compiled kernels exercised as built.",
          "2/C07"),
+ "C08": ("model_checking",
+         "explicit-state BFS over rotation words (deduplicated rotation matrices) x complete enumeration of low-order coefficient vectors (all sums of <= 3 unit vectors with phases: polarisation covers the quadratic/cubic forms) against exactly rotated coefficients",
+         "Rotations: all words of length <= 2 (thorough 3) over 5 generators + the octahedral group + a seed-rotated generic one; coefficient vectors, general complex and completed-real: all unit vectors, pairs and triples with phase variants for small L, unit vectors to L=6, adjacent pairs at L=8, dense vectors to L=12; N, P (cubed) and power spectrum of rotated = original to 1e-9; locality of N for every coefficient up to L=12; count/order/N-first for L=0..26.",
+         "Rotated coefficients from exact quadrature of scipy's harmonics (blocks checked unitary); compiled Clebsch-Gordan kernel exercised as built.",
+         "2/C08"),
 }
 
 ALL = ["C%02d" % i for i in range(1, 21)]
